@@ -132,38 +132,47 @@ structure Plan where
   need : Int         -- debtGettingLeft asked from the app reserve
   deriving DecidableEq, Repr, Inhabited
 
-def plan (e : Env) (a : Auc) (amt0 : Int) (dp : Dec) : Except Unit Plan := do
-  if amt0 = 0 then throw ()                                      -- ErrBidCannotBeZero
+/-- collateral (or debt) amount of `conv` only -/
+def convC (amt : Int) (r1 : Dec) (d1 : Int) (r2 : Dec) (d2 : Int) : Except Unit Int :=
+  match conv amt r1 d1 r2 d2 with
+  | .ok (_, c) => .ok c
+  | .error _ => .error ()
+
+def plan (e : Env) (a : Auc) (amt0 : Int) (dp : Dec) : Except Unit Plan :=
+  if amt0 = 0 then .error () else                                  -- ErrBidCannotBeZero
   let full := decide (amt0 ≥ a.debt)
   let amt := if full then a.debt else amt0
-  let (_, c) ← conv amt dp e.decD a.price e.decC
-  let (_, cB) ← conv a.bonus dp e.decD a.price e.decC
-  let total := c + cB
-  if full ∨ ¬ (total ≤ a.coll) then
-    if ¬ (total ≤ a.coll) then
-      let left := a.coll
-      let (_, d') ← conv (left - cB) a.price e.decC dp e.decD
-      if d' < 0 then throw ()                                    -- sdk.NewCoin panics on a negative amount
-      let need := a.debt - d'
-      if need < 0 then throw ()                                  -- Coin.Sub panics
-      if left < 0 then throw ()                                  -- sdk.NewCoin (CreateUserBid)
-      pure { close := true, clipped := true, pay := d', total := left, share := 0, need := need }
+  match convC amt dp e.decD a.price e.decC, convC a.bonus dp e.decD a.price e.decC with
+  | .ok c, .ok cB =>
+    let total := c + cB
+    if full ∨ ¬ (total ≤ a.coll) then
+      if ¬ (total ≤ a.coll) then
+        -- collateral exhausted: the bid is recomputed from what is left, the app reserve is asked for the rest
+        match convC (a.coll - cB) a.price e.decC dp e.decD with
+        | .ok d' =>
+          -- sdk.NewCoin panics on a negative amount (bid, collateral), Coin.Sub on a negative difference
+          if d' < 0 ∨ a.debt - d' < 0 ∨ a.coll < 0 then .error ()
+          else .ok { close := true, clipped := true, pay := d', total := a.coll, share := 0, need := a.debt - d' }
+        | .error _ => .error ()
+      else
+        if total < 0 ∨ amt < 0 then .error ()                      -- sdk.NewCoin (CreateUserBid)
+        else .ok { close := true, clipped := false, pay := amt, total := total, share := 0, need := 0 }
     else
-      if total < 0 ∨ amt < 0 then throw ()                       -- sdk.NewCoin (CreateUserBid)
-      pure { close := true, clipped := false, pay := amt, total := total, share := 0, need := 0 }
-  else
-    let (_, c2) ← conv amt dp e.decD a.price e.decC
-    let debtLeft := a.debt - amt
-    let usd ← usdValue debtLeft dp e.decD
-    if ¬ (usd > Dec.ofInt e.minUsd) then throw ()                -- ErrCannotLeaveDebtLessThanDust
-    if a.debt = 0 then throw ()                                  -- Int.Quo by zero
-    let ratio := amt.tdiv a.debt                                 -- sdk.Int quotient (integer!)
-    let sh0 := e.bonus0 * ratio
-    let share := if sh0 > a.bonus then a.bonus else sh0
-    let (_, cS) ← conv share dp e.decD a.price e.decC
-    let tot := c2 + cS
-    if tot < 0 ∨ amt < 0 then throw ()                           -- sdk.NewCoin (send / CreateUserBid)
-    pure { close := false, clipped := false, pay := amt, total := tot, share := share, need := 0 }
+      match usdValue (a.debt - amt) dp e.decD with
+      | .ok usd =>
+        if ¬ (usd > Dec.ofInt e.minUsd) then .error ()              -- ErrCannotLeaveDebtLessThanDust
+        else if a.debt = 0 then .error ()                          -- Int.Quo by zero
+        else
+          let ratio := amt.tdiv a.debt                             -- sdk.Int quotient (integer!)
+          let sh0 := e.bonus0 * ratio
+          let share := if sh0 > a.bonus then a.bonus else sh0
+          match convC share dp e.decD a.price e.decC with
+          | .ok cS =>
+            if c + cS < 0 ∨ amt < 0 then .error ()                 -- sdk.NewCoin (send / CreateUserBid)
+            else .ok { close := false, clipped := false, pay := amt, total := c + cS, share := share, need := 0 }
+          | .error _ => .error ()
+      | .error _ => .error ()
+  | _, _ => .error ()
 
 /-! ### PlaceDutchAuctionBid, second half: moving the money -/
 
@@ -173,59 +182,78 @@ def withdrawReserve (s : St) (need : Int) : Except Unit St :=
   match s.reserve with
   | none => .error ()
   | some q =>
-    if q - need ≥ 0 then do
-      let b ← sendPos s.bank .reserve .auction .debt need
-      pure { s with bank := b, reserve := some (q - need) }
+    if q - need ≥ 0 then
+      match sendPos s.bank .reserve .auction .debt need with
+      | .ok b => .ok { s with bank := b, reserve := some (q - need) }
+      | .error _ => .error ()
     else
-      pure { s with reserve := some (q - need), short := s.short + need }
+      .ok { s with reserve := some (q - need), short := s.short + need }
 
 def keeperCut (e : Env) : Int := Dec.truncateInt (Dec.mul e.incentive (Dec.ofInt e.fee))
 
+/-- the keeper's cut and what is left of the penalty (`Coin.Sub` panics if the cut exceeds the penalty) -/
+def cutOf (e : Env) (enabled : Bool) : Int := if enabled ∧ keeperCut e > 0 then keeperCut e else 0
+
 /-- closing distribution of the debt side (bid.go:89-202) -/
-def distribute (e : Env) (s : St) : Except Unit St := do
-  if e.target - e.fee < 0 then throw ()                           -- TargetDebt.Sub(penalty) panics
-  let burnAmt := if e.kind = .vault then e.target - e.fee else 0
-  let b ← if burnAmt > 0 then burn s.bank .auction .debt burnAmt else pure s.bank
-  let s := { s with bank := b, burned := s.burned + (if burnAmt > 0 then burnAmt else 0) }
+def distribute (e : Env) (s : St) : Except Unit St :=
+  if e.target - e.fee < 0 then .error () else                      -- TargetDebt.Sub(penalty) panics
   match e.kind with
+  | .vault =>
+    let inc := cutOf e e.isKeeper
+    let pen := e.fee - inc
+    if pen < 0 then .error () else
+    match (if e.target - e.fee > 0 then burn s.bank .auction .debt (e.target - e.fee) else .ok s.bank) with
+    | .error _ => .error ()
+    | .ok b1 =>
+    match sendPos b1 .auction .keeper .debt inc with
+    | .error _ => .error ()
+    | .ok b2 =>
+    match sendPos b2 .auction .collector .debt pen with
+    | .error _ => .error ()
+    | .ok b3 => .ok { s with bank := b3, burned := s.burned + (e.target - e.fee), netFees := s.netFees + pen }
   | .external =>
-    let inc := keeperCut e
-    let pen := if inc > 0 then e.fee - inc else e.fee
-    if pen < 0 then throw ()                                       -- Coin.Sub panics
+    let inc := cutOf e true
+    let pen := e.fee - inc
+    if pen < 0 then .error () else
     -- an externally initiated position has InternalKeeperAddress = "" (liquidate.go:715): the incentive transfer goes to
     -- the empty address and the bank panics ("key is nil") — the closing bid is then rejected as a whole
-    if inc > 0 then throw ()
-    let b ← send s.bank .auction .initiator .debt (e.target - e.fee)
-    pure { s with bank := b, extFees := s.extFees + pen, booked := s.booked + pen }
-  | .vault =>
-    let inc := if e.isKeeper then keeperCut e else 0
-    let pen := if inc > 0 then e.fee - inc else e.fee
-    if pen < 0 then throw ()
-    let b ← if inc > 0 then send s.bank .auction .keeper .debt inc else pure s.bank
-    let b ← sendPos b .auction .collector .debt pen
-    pure { s with bank := b, netFees := s.netFees + pen }
+    if inc > 0 then .error () else
+    match send s.bank .auction .initiator .debt (e.target - e.fee) with
+    | .error _ => .error ()
+    | .ok b => .ok { s with bank := b, extFees := s.extFees + pen, booked := s.booked + pen }
   | .lend =>
-    let b ← send s.bank .auction .pool .debt e.target              -- MsgCloseDutchAuctionForBorrow: whole target to the pool
-    pure { s with bank := b }
+    match send s.bank .auction .pool .debt e.target with           -- MsgCloseDutchAuctionForBorrow: whole target to the pool
+    | .error _ => .error ()
+    | .ok b => .ok { s with bank := b }
 
-def apply (e : Env) (s : St) (a : Auc) (who : Nat) (p : Plan) (auto : Bool) : Except Unit St := do
-  if s.auc.isNone then throw ()                                    -- ErrorInGettingLockedVault (deleted with the auction)
-  let s ← if p.clipped then withdrawReserve s p.need else pure s
-  let b ← if auto then pure s.bank else sendPos s.bank (.bidder who) .auction .debt p.pay
-  let b ← sendPos b .auction (.bidder who) .coll p.total
-  let s := { s with bank := b, paid := s.paid + p.pay, recv := s.recv + p.total,
-                    otherD := if auto then s.otherD - p.pay else s.otherD }
+def apply (e : Env) (s : St) (a : Auc) (who : Nat) (p : Plan) (auto : Bool) : Except Unit St :=
+  if s.auc.isNone then .error () else                               -- ErrorInGettingLockedVault (deleted with the auction)
+  match (if p.clipped then withdrawReserve s p.need else .ok s) with
+  | .error _ => .error ()
+  | .ok s1 =>
+  match (if auto then .ok s1.bank else sendPos s1.bank (.bidder who) .auction .debt p.pay) with
+  | .error _ => .error ()
+  | .ok b1 =>
+  match sendPos b1 .auction (.bidder who) .coll p.total with
+  | .error _ => .error ()
+  | .ok b2 =>
+  let s2 := { s1 with bank := b2, paid := s1.paid + p.pay, recv := s1.recv + p.total,
+                      otherD := if auto then s1.otherD - p.pay else s1.otherD }
   if p.close then
-    let s ← distribute e s
-    let b ← sendPos s.bank .auction .owner .coll (a.coll - p.total)
-    pure { s with bank := b, auc := none }
+    match distribute e s2 with
+    | .error _ => .error ()
+    | .ok s3 =>
+    match sendPos s3.bank .auction .owner .coll (a.coll - p.total) with
+    | .error _ => .error ()
+    | .ok b4 => .ok { s3 with bank := b4, auc := none }
   else
-    pure { s with auc := some { a with coll := a.coll - p.total, debt := a.debt - p.pay, bonus := a.bonus - p.share } }
+    .ok { s2 with auc := some { a with coll := a.coll - p.total, debt := a.debt - p.pay, bonus := a.bonus - p.share } }
 
 /-- `PlaceDutchAuctionBid(ctx, id, bidder, bid, auctionData, isAutoBid)`; `a` is the auction VALUE the caller passes -/
-def placeBid (e : Env) (s : St) (a : Auc) (who : Nat) (amt0 : Int) (debtTwa : Int) (auto : Bool) : Except Unit St := do
-  let p ← plan e a amt0 (debtPrice e debtTwa)
-  apply e s a who p auto
+def placeBid (e : Env) (s : St) (a : Auc) (who : Nat) (amt0 : Int) (debtTwa : Int) (auto : Bool) : Except Unit St :=
+  match plan e a amt0 (debtPrice e debtTwa) with
+  | .ok p => apply e s a who p auto
+  | .error _ => .error ()
 
 /-! ### AuctionIterator for one auction -/
 def iterate (e : Env) (a : Auc) (now twaC : Int) (actC : Bool) (twaD : Int) (actD : Bool) : Except Unit Auc := do
